@@ -877,8 +877,9 @@ xlat_clone(const struct kdump_xlat *orig)
 	struct kdump_xlat *xlat;
 
 	xlat = xlat_new();
-	if (xlat)
-		set_addrspace_caps(xlat, orig->xlat_caps);
+	if (!xlat)
+		return NULL;
+	set_addrspace_caps(xlat, orig->xlat_caps);
 	xlat->dirty = true;
 	return xlat;
 }
